@@ -31,10 +31,14 @@ var verifC21State struct {
 	cxn     *brokerCxn
 	written bool
 	version int16
+	fresh   *brokerVersions // what this connection's ApiVersions exchange yields
 }
 
 //verif:replace (*broker).loadConnection
 func (b *broker) verifC21LoadConnection(ctx context.Context, req kmsg.Request) (*brokerCxn, error) {
+	// like the real connection init, (re)connecting stores the versions this broker now
+	// advertises; what an earlier connection advertised must not be used for this request
+	b.storeVersions(verifC21State.fresh)
 	return verifC21State.cxn, nil
 }
 
@@ -96,7 +100,14 @@ func VerifC21_negotiate() {
 			v.minVers[key] = bMin
 		}
 	}
-	b.storeVersions(v)
+	verifC21State.fresh = v
+	// before the (re)connect the broker may have advertised anything else for this key
+	stale := newBrokerVersions(4)
+	if verifNondetBool("stale.present") {
+		stale.maxVers[0], stale.minVers[0] = 3, 0
+		stale.maxVers[key], stale.minVers[key] = verifNondetInt16("stale.max"), verifNondetInt16("stale.min")
+	}
+	b.storeVersions(stale)
 	advertised := loaded && (hasKey || key == 0)
 
 	// user max / min versions
